@@ -132,6 +132,14 @@ add('pk_f11', [('float', 3)], [('uint32_t', 2)], 'o[0] = glm::packF2x11_1x10(ldv
 add('upk_f11', [('uint32_t', 1)], [('float', 3), ('float', 4)], 'stv(o, glm::unpackF2x11_1x10(a[0])); stv(o2, glm::unpackUnorm3x10_1x2(a[0]));')
 add('srgb_f', [('float', 3)], [('float', 3)] * 2, 'stv(o, glm::convertLinearToSRGB(ldv<3,float>(a))); stv(o2, glm::convertSRGBToLinear(ldv<3,float>(a)));')
 
+# every matrix constructor has a second body for compilers without initializer lists (GLM_HAS_INITIALIZER_LISTS == 0 under GLM_FORCE_CXX98/03): all 81 shape conversions, the
+# scalar / column / component constructors, row()/column() access, transpose and outerProduct for all nine shapes (the wrappers of C02's float unit, re-used verbatim)
+import props.c02 as _C02
+B.extra_prelude += _C02.PRE_T % 'float'
+for (C_, R_) in _C02.SHAPES:
+    for nm_ in ('cv_%d%d' % (C_, R_), 'tr_%d%d' % (C_, R_)):
+        f_ = _C02.UNITS['f32'].fns[nm_]; add('m' + nm_, f_.ins, f_.outs, f_.body)
+
 # ----------------------------------------------------------------------------- configurations
 CFG = {
     'cxx98': ['GLM_FORCE_CXX98'], 'cxx03': ['GLM_FORCE_CXX03'], 'cxx11': ['GLM_FORCE_CXX11'], 'cxx14': ['GLM_FORCE_CXX14'], 'cxx17': ['GLM_FORCE_CXX17'], 'cxx20': ['GLM_FORCE_CXX20'],
